@@ -223,7 +223,10 @@ def stepV2 (p : V2.Pc) (toks : List String) : V2.Pc × String :=
   match toks with
   | "v2block" :: rest =>
     match getNat rest "p", parseBlock rest with
-    | some id, some b => if b.malformed then (p, "bad-op") else ev (.blockReceived id (some b))
+    | some id, some b =>
+      if b.malformed then (p, "bad-op")
+      else if !b.lastCommit.basicOK then (p, "rejected")   -- never reaches the processor
+      else ev (.blockReceived id (some b))
     | _, _ => (p, "bad-op")
   | "v2nil" :: rest =>
     match getNat rest "p" with
